@@ -317,11 +317,31 @@ def replay(case):
     return out
 
 
+MANY = ["KSEKTYKESEYKTE", "SKTEYKSETKYESK", "SSTTYYKE"]     # 6, 7 and 6 (adjacent) sites: 64 / 128 on-off states each
+
+
+def many_sites(seq):
+    """One state only - every S/T/Y position set, in descending order - but with a distribution of 2^6 / 2^7 entries."""
+    sty = [i + 1 for i, a in enumerate(seq) if a in "STY"]
+    out = []
+    calls = 0
+    for order in (list(reversed(sty)), sty[1::2] + sty[0::2]):
+        hist = [("set", list(order))]
+        case = {"kind": "hist", "seq": seq, "history": hist}
+        try:
+            o = build(seq, hist)
+        except Exception as e:  # noqa
+            out.append({"key": "set-raises", "what": "%s: set_phosphosites(%r) raised %r" % (seq, order, e), "case": case})
+            continue
+        calls += 1 + state_invariants(seq, model_set(seq, [], order), o, case, out)
+    return out, 2, 2, calls
+
+
 def shard(items):
     acc = core.Acc()
     for seq, full in items:
-        v, nst, ntr, calls = explore(seq, full)
-        if len(seq) >= 3:
+        v, nst, ntr, calls = many_sites(seq) if full == "many" else explore(seq, full)
+        if len(seq) >= 3 and full != "many":
             v2, c2 = check_copies_and_types(seq)
             v = v + v2
             calls += c2
@@ -351,6 +371,7 @@ def run(tier, seed, t0):
             items += [(w, True) for w in spaces.shard_words(ALPHA, L, "")]
         items += [(w, False) for w in spaces.shard_words("SYK", 5, "")]
         items += [(w, False) for w in LONG + LONG4]
+    items += [(w, "many") for w in (MANY if tier == "thorough" else MANY[:2])]
     items.sort(key=lambda it: -(sum(it[0].count(c) for c in "STY") * 10 + len(it[0])))
     nsh = 16 * 8
     acc = core.pmap(shard, [items[i::nsh] for i in range(nsh)])
@@ -365,7 +386,7 @@ def run(tier, seed, t0):
              "the S/T/Y sites). In every state: get_phosphosites == model, sequence unchanged, get_phosphosequence = E at exactly "
              "those positions, get_kappa_after_phosphorylation = kappa of a fresh object on that sequence, distribution has 2^k "
              "entries in binary counting order whose six numbers equal those of the substituted sequence, "
-             "get_all_phosphorylatable_sites constant; for every sequence of >=3 residues a shuffled copy with all positions frozen must be an independent object (sites neither inherited nor shared), and positions given as numpy integers of seven widths in lists/tuples/arrays must behave like ints; non-trivial = states with >=1 site" % (
+             "get_all_phosphorylatable_sites constant (also for two 14-mers with 6 and 7 sites all set: 64 / 128 distribution entries); in every state the lists the queries returned are overwritten by the caller and one more set call must still follow the model; for every sequence of >=3 residues a shuffled copy with all positions frozen must be an independent object (sites neither inherited nor shared), and positions given as numpy integers of seven widths in lists/tuples/arrays must behave like ints; non-trivial = states with >=1 site" % (
                  "over {S,Y,K,G}, length 1..3" if tier == "quick" else "over {S,T,Y,K,E,G}, length 1..4; over {S,Y,K}, length 5"),
         bounds={"words": len(items), "depth": "fixpoint"},
         assumptions=["other object state (delta-max cache etc.) is C15's job; non-integer positions are not in the property"])
